@@ -1,3 +1,101 @@
+import BU.Py
 import BU.Model.Heap
+import BU.Model.Digest
+import BU.Model.Order
+import BU.Proofs.OrderLemmas
+import BU.Properties.C03
+import BU.Properties.C04
+import BU.Properties.C05
+/-!
+# C13 — digests and signing are pure and order-independent; copies share no state
+
+Two models.  (1) `Model.Heap`: Python object identity as heap references; copy helpers, constructors and
+`get_transaction_digest` as heap transformers.  (2) the pure transaction model for order independence.
+-/
 namespace C13
+open Py Spec Model Model.Heap Model.Order
+
+/-! ## (1) copies and constructors share no mutable state -/
+
+/-- `h'` is `h` plus newly allocated objects -/
+def Extends (h h' : H) : Prop := ∃ ext, h' = h ++ ext
+
+/-- every object reachable from a copy of a transaction was allocated by the copy, and the copy denotes the
+same transaction value -/
+theorem copyTx_fresh (h : H) (r : Ref) (h' : H) (c : Ref) (hc : copyTx h r = .ok (h', c)) :
+    Extends h h' ∧ (∀ x ∈ reachTx h' c, h.length ≤ x) ∧ (∀ t, viewTx h r = some t → viewTx h' c = some t) := by
+  sorry
+
+theorem copyTxIn_fresh (h : H) (r : Ref) (h' : H) (c : Ref) (hc : copyTxIn h r = .ok (h', c)) :
+    Extends h h' ∧ (∀ x ∈ reachTxIn h' c, h.length ≤ x) ∧ (∀ t, viewTxIn h r = some t → viewTxIn h' c = some t) := by
+  sorry
+
+theorem copyTxOut_fresh (h : H) (r : Ref) (h' : H) (c : Ref) (hc : copyTxOut h r = .ok (h', c)) :
+    Extends h h' ∧ (∀ x ∈ reachTxOut h' c, h.length ≤ x) ∧ (∀ t, viewTxOut h r = some t → viewTxOut h' c = some t) := by
+  sorry
+
+theorem copyWit_fresh (h : H) (r : Ref) (h' : H) (c : Ref) (hc : copyWit h r = .ok (h', c)) :
+    Extends h h' ∧ (∀ x ∈ reachWit h' c, h.length ≤ x) ∧ (∀ t, viewWit h r = some t → viewWit h' c = some t) := by
+  sorry
+
+theorem copyScript_fresh (h : H) (r : Ref) (h' : H) (c : Ref) (hc : copyScript h r = .ok (h', c)) :
+    Extends h h' ∧ (∀ x ∈ reachScript h' c, h.length ≤ x) ∧ (∀ t, viewScript h r = some t → viewScript h' c = some t) := by
+  sorry
+
+/-- objects constructed independently share nothing: an input built with the defaulted `script_sig` gets a
+script (and list) of its own -/
+theorem newTxIn_default_fresh (h : H) (txid : Bytes) (index : Int) (sequence : Bytes) :
+    ∀ x ∈ reachTxIn (newTxIn h txid index none sequence).1 (newTxIn h txid index none sequence).2, h.length ≤ x := by
+  sorry
+
+/-- **frame**: a write (attribute rebinding or in-place list mutation) to an object that is not reachable from
+a transaction does not change the value that transaction denotes -/
+theorem frame (h : H) (r w : Ref) (o : Obj) (hw : w ∉ reachTx h r) : viewTx (write h w o) r = viewTx h r := by
+  sorry
+
+/-- in a heap built by allocation (no forward references) everything reachable from an old object is old -/
+theorem reach_old (h : H) (hcl : closed h) (r : Ref) (hr : r < h.length) : ∀ x ∈ reachTx h r, x < h.length := by
+  sorry
+
+/-- **mutating a copy through its public attributes never changes the original** (and vice versa), for any
+object reachable from either and any new content -/
+theorem copy_isolated (h : H) (hcl : closed h) (r : Ref) (hr : r < h.length) (h' : H) (c : Ref)
+    (hc : copyTx h r = .ok (h', c)) :
+    (∀ w ∈ reachTx h' c, ∀ o, viewTx (write h' w o) r = viewTx h r) ∧
+    (∀ w ∈ reachTx h' r, ∀ o, viewTx (write h' w o) c = viewTx h' c) := by
+  sorry
+
+/-! ## digests never change the transaction -/
+
+/-- `get_transaction_digest` works on a copy: every object that existed before the call is unchanged after it
+(the transaction, every input's script and sequence, outputs, witnesses — and the caller's `script`) -/
+theorem legacy_digest_pure (sha256 : Bytes → Bytes) (T : Tables) (h : H) (hcl : closed h) (self code : Ref)
+    (hs : self < h.length) (hcode : code < h.length) (i ht : Nat) (h' : H) (d : Bytes)
+    (hd : legacyDigestH sha256 T h self i code ht = .ok (h', d)) :
+    h'.length ≥ h.length ∧ (∀ x, x < h.length → h'[x]? = h[x]?) ∧ viewTx h' self = viewTx h self := by
+  sorry
+
+/-- … and it computes exactly the digest of the pure model (C03) on the value the transaction denotes -/
+theorem legacy_digest_value (sha256 : Bytes → Bytes) (T : Tables) (h : H) (hcl : closed h) (self code : Ref)
+    (hs : self < h.length) (hcode : code < h.length) (i ht : Nat) (t : Tx) (toks : List Tok)
+    (ht' : viewTx h self = some t) (hcv : viewScript h code = some toks) :
+    (legacyDigestH sha256 T h self i code ht).map (·.2) = legacyDigest sha256 T t i toks ht := by
+  sorry
+
+/-! ## (2) order independence -/
+
+theorem digests_depend_on_skeleton (sha256 : Bytes → Bytes) (T : Tables) (t t' : Tx) (hsk : skeleton t = skeleton t')
+    (i : Nat) (code : List Tok) (ht : Nat) (amount : Int) (spks : List (List Tok)) (amounts : List Int) (ext : Nat) (leaf : List Tok) :
+    legacyDigest sha256 T t i code ht = legacyDigest sha256 T t' i code ht ∧
+    segwitDigest sha256 T t i code amount ht = segwitDigest sha256 T t' i code amount ht ∧
+    taprootDigest sha256 T t i spks amounts ext leaf ht = taprootDigest sha256 T t' i spks amounts ext leaf ht := by
+  exact OrderLemmas.digests_depend_on_skeleton sha256 T t t' hsk i code ht amount spks amounts ext leaf
+
+/-- **any interleaving**: signing the inputs in any order, interleaved with attaching scripts and witnesses,
+gives the same final transaction (hence the same bytes), for any number of inputs -/
+theorem order_independent (ops ops' : List Op) (hp : ops.Perm ops') (hs : ∀ o ∈ ops, o.SkeletonOnly)
+    (hd : ops.Pairwise fun a b => (a.slot, a.isWitness) ≠ (b.slot, b.isWitness)) (t : Tx) :
+    run ops t = run ops' t := by
+  exact OrderLemmas.order_independent ops ops' hp hs hd t
+
 end C13
